@@ -218,7 +218,12 @@ func (cc *ConnCase) FlatMsgs() []pgwire.FMsg {
 // MatchConn checks the transcript and callback trace of a fault-free
 // connection against the reference model.
 func MatchConn(c *Case, cs *connState, t *Transcript) *MatchResult {
-	mt := &matcher{m: NewModel(c), msgs: cs.cc.FlatMsgs(), out: t.Msgs, ev: modelEvents(cs), states: map[string]struct{}{}}
+	return MatchConnModel(NewModel(c), c, cs, t)
+}
+
+// MatchConnModel is MatchConn with a caller-configured model.
+func MatchConnModel(model *Model, c *Case, cs *connState, t *Transcript) *MatchResult {
+	mt := &matcher{m: model, msgs: cs.cc.FlatMsgs(), out: t.Msgs, ev: modelEvents(cs), states: map[string]struct{}{}}
 	mt.outIdx = make([]int, len(mt.msgs))
 	res := &MatchResult{}
 	res.OK = mt.rec(mt.m.Start(), 0, 0, 0)
